@@ -17,7 +17,7 @@ META = {
         "quick": "schedules of <= 8 steps, <= 3 elements per producer (awaiting and blind producers), "
                  "buffer n in {1,2}, map_async parallelism in {1,2} with out-of-order job completion, "
                  "interval/timeout 2 ticks; tornado-future and native-coroutine sinks; 20 templates",
-        "thorough": "schedules of <= 10 steps, <= 4 elements, parallelism up to 3",
+        "thorough": "schedules of <= 9 steps, <= 4 elements, parallelism up to 3",
     },
     "outside": ["wall-clock effects", "several event loops", "pre-emptive threads"],
     "stubs": ["event loop + clock: engine/vloop.py"],
@@ -119,7 +119,7 @@ def templates(tier):
 
 def obligations(tier):
     q = tier == "quick"
-    steps = 8 if q else 10
+    steps = 8 if q else 9
     obls = []
     for sh in templates(tier):
         nm = "%s/n=%s/%s/%s/steps=%d" % (sh["template"], sh.get("n", "-"),
